@@ -395,16 +395,23 @@ func (g *typeGen) nestedInline(t *rapid.T, depth, idx int) (TypeDesc, string) {
 		mid.Fields = append(mid.Fields, FieldDesc{Name: fmt.Sprintf("MP%d", idx), Type: g.scalar(t), Tag: plain()})
 	}
 	it := inner
-	if !g.cfg.InlineOnlyStruct && rapid.IntRange(0, 2).Draw(t, "niptr") == 0 {
-		it = TypeDesc{Kind: "ptr", Elem: &inner}
+	if !g.cfg.InlineOnlyStruct {
+		// pointer chains of depth 0..3 (a nil pointer at ANY level contributes no members)
+		for k := rapid.SampledFrom([]int{0, 0, 1, 2, 3}).Draw(t, "niptr"); k > 0; k-- {
+			e := it
+			it = TypeDesc{Kind: "ptr", Elem: &e}
+		}
 	}
 	mid.Fields = append(mid.Fields, FieldDesc{Name: "I", Type: it, Tag: inl()})
 	if rapid.Bool().Draw(t, "nipost") {
 		mid.Fields = append(mid.Fields, FieldDesc{Name: fmt.Sprintf("MQ%d", idx), Type: g.scalar(t), Tag: plain()})
 	}
 	mt := mid
-	if !g.cfg.InlineOnlyStruct && rapid.IntRange(0, 2).Draw(t, "niptr2") == 0 {
-		mt = TypeDesc{Kind: "ptr", Elem: &mid}
+	if !g.cfg.InlineOnlyStruct {
+		for k := rapid.SampledFrom([]int{0, 0, 1, 2}).Draw(t, "niptr2"); k > 0; k-- {
+			e := mt
+			mt = TypeDesc{Kind: "ptr", Elem: &e}
+		}
 	}
 	return mt, inl()
 }
